@@ -38,12 +38,23 @@ class EighCapture:
         return False
 
 
-def first_eigh(cap, where):
-    """the first numpy.linalg.eigh call captured inside `where`; the model is fed LAPACK's result, so there has to be one"""
+FALLBACKS = {"count": 0}
+
+
+def first_eigh(cap, where, W=None):
+    """the first numpy.linalg.eigh call captured inside `where`: the model is fed LAPACK's result.
+    A rewrite may obtain the propagator some other way (scipy, an aliased import, expm); the propagator exp(-i W dt) does not
+    depend on which eigenbasis of W is used, so when the caller can name the Hermitian generator `W` the harness
+    diagonalises it itself and the comparison of the resulting states stays as strict as before."""
     from .core import CorrespondenceBroken
-    if not cap.calls:
-        raise CorrespondenceBroken("%s did not call numpy.linalg.eigh: the model cannot be fed the eigen-decomposition it used" % where)
-    return cap.calls[0]
+    if cap.calls:
+        return cap.calls[0]
+    if W is not None:
+        W = np.array(W, copy=True)
+        w, c = cap.orig(W) if hasattr(cap, "orig") else np.linalg.eigh(W)
+        FALLBACKS["count"] += 1
+        return W, np.array(w), np.array(c)
+    raise CorrespondenceBroken("%s did not call numpy.linalg.eigh: the model cannot be fed the eigen-decomposition it used" % where)
 
 
 def elec_case(rng, N=None, n=None, rho_kind=None, scale=0.05):
